@@ -108,14 +108,14 @@ Theorem unregister_snapshot_refuted :
 Proof. exact unregister_snapshot_refuted_lemma. Qed.
 Print Assumptions unregister_snapshot_refuted.
 
-(* F3  `if not provide_cache: return` in register_provide_reference sees other threads' providers: a failing render
-       without any provider leaves its id in all_reference_ids for ever (alone it leaves none); results are unaffected. *)
+(* F3  `if not provide_cache: return` in register_provide_reference sees other threads' providers: a render of one plain
+       component, no provider anywhere in its page, enters the provide bookkeeping because of ANOTHER thread's provider and
+       then fails in unregister_provide_reference (where F2 strikes): KeyError although alone it renders fine. *)
 Theorem provide_register_race_refuted :
   all_finished (run F3_sched F3_c0) = true /\ solo_finished F3_c0 0 = true /\ solo_finished F3_c0 1 = true /\
-  thread_result (run F3_sched F3_c0) 0 = solo_result F3_c0 0 /\
-  thread_result (run F3_sched F3_c0) 1 = solo_result F3_c0 1 /\
-  allrefs (ps (gl (run F3_sched F3_c0))) = [1] /\
-  allrefs (ps (gl (solo SOLO_FUEL 0 F3_c0))) = [] /\ allrefs (ps (gl (solo SOLO_FUEL 1 F3_c0))) = [].
+  solo_result F3_c0 0 = Some (None, [OTpl 11]) /\
+  thread_result (run F3_sched F3_c0) 0 = Some (Some KeyError, [OTpl 11]) /\
+  thread_result (run F3_sched F3_c0) 1 = solo_result F3_c0 1.
 Proof. exact register_empty_check_refuted_lemma. Qed.
 Print Assumptions provide_register_race_refuted.
 
@@ -154,13 +154,13 @@ Print Assumptions lazy_media_double_resolve_refuted.
 
 (* ---- Non-vacuity ---------------------------------------------------------------------------------------------- *)
 (* The premises of the isolation theorems are satisfiable by real render programs under a real interleaving: a nested
-   three-component page and a failing page, ids of thread t are t*1000 + n. *)
+   three-component page and a page that fails below its root; ids of thread t are t*1000 + n. *)
 Example isolation_premises_satisfiable :
   disjoint NV_own /\ safe_config NV_own NV_c0 /\
   all_finished (run NV_sched NV_c0) = true /\
   thread_result (run NV_sched NV_c0) 0 = Some (None, [OTpl 10; OTpl 11; OTpl 12]) /\
-  thread_result (run NV_sched NV_c0) 1 = Some (Some KeyError, []) /\
-  residue (gl (run NV_sched NV_c0)) = [[]; []; []; [1001]; []; []].
+  thread_result (run NV_sched NV_c0) 1 = Some (Some KeyError, [OTpl 10; OTpl 11]) /\
+  tables_empty (gl (run NV_sched NV_c0)) = true.
 Proof. exact isolation_premises_satisfiable_example. Qed.
 
 (* The media theorem's premise (depth <= 1) is satisfiable and its conclusion is not vacuous: two threads interleaved
